@@ -37,6 +37,8 @@ TRUSTED_EXTRA = [
 ASSUMPTIONS = [
     "kernel contract = harness/sim.py (process table, reaping, signal effects resolve when virtual time reaches their deadline, "
     "SIGKILL latency parameter, exec failure script); real kernel scheduling is not modelled",
+    "every successful fork/exec takes at least 1 ms of virtual time, so the workers of one watcher have distinct Process.started "
+    "values as on a real kernel (found by the live cross-check docs/LIVE.md D1: with ties the surplus sort would keep dict order)",
     "one external stimulus per atomic step, then the event loop runs to quiescence; timers fire in (deadline, creation) order",
     "graceful_timeout values are those for which the float loop `waited += 0.1` makes ceil(T/100ms) polls (checked by the generator)",
     "watcher names over ASCII + Latin-1; glob patterns over * and ?; regex matching, on_demand sockets, stream redirection and "
